@@ -201,6 +201,18 @@ func TestC18Race(t *testing.T) {
 						if err == nil && i%2 == 0 {
 							c.DeleteAt(off)
 						}
+						switch i % 5 {
+						case 1:
+							// an insert whose row callback fails: the reserved offset is given back at once
+							c.Insert(func(r column.Row) error { r.SetInt("n", i); return errStep })
+						case 3:
+							// a transaction that inserts and is rolled back: the offsets are released by the rollback
+							c.Query(func(txn *column.Txn) error {
+								txn.Insert(func(r column.Row) error { r.SetInt("n", i); return nil })
+								txn.Insert(func(r column.Row) error { r.SetString("s", "gone"); return nil })
+								return errRollback
+							})
+						}
 					case wSnapshot:
 						var buf bytes.Buffer
 						if err := c.Snapshot(&buf); err == nil {
@@ -417,6 +429,34 @@ func TestC18Targeted(t *testing.T) {
 			var buf bytes.Buffer
 			c.Snapshot(&buf)
 			time.Sleep(40 * time.Millisecond)
+		}))
+	run("failing and rolled-back inserts beside each other and beside selections",
+		loop(func(c *column.Collection, i int) {
+			c.Insert(func(r column.Row) error { r.SetInt("n", i); return errStep })
+		}),
+		loop(func(c *column.Collection, i int) {
+			c.Insert(func(r column.Row) error { r.SetInt("n", i); return errStep })
+		}),
+		loop(func(c *column.Collection, i int) {
+			c.Query(func(txn *column.Txn) error {
+				txn.Insert(func(r column.Row) error { r.SetInt("n", i); return nil })
+				return errRollback
+			})
+		}),
+		loop(func(c *column.Collection, i int) {
+			c.Query(func(txn *column.Txn) error {
+				txn.Insert(func(r column.Row) error { r.SetInt("n", i); return nil })
+				return errRollback
+			})
+		}),
+		loop(func(c *column.Collection, i int) {
+			c.Query(func(txn *column.Txn) error { txn.Count(); return nil })
+		}),
+		loop(func(c *column.Collection, i int) {
+			off, err := c.Insert(func(r column.Row) error { r.SetInt("n", i); return nil })
+			if err == nil {
+				c.DeleteAt(off)
+			}
 		}))
 	// Readers use the index only while it is registered (a typed accessor on a missing column is a
 	// documented panic): they start at the first call of the index rule - i.e. while the build is
